@@ -555,9 +555,11 @@ def beam_histories(draw):
     spec = draw(gb.member_specs(types=("SEG2", "SEG3")))
     ops = []
     for _ in range(draw(st.integers(3, 10))):
-        name = draw(st.sampled_from(["E", "v", "rho", "yaxis", "bc", "bc", "solve", "solve", "matrices"]))
+        name = draw(st.sampled_from(["E", "v", "rho", "yaxis", "stretch", "bc", "bc", "solve", "solve", "matrices"]))
         op = dict(op=name)
-        if name == "E":
+        if name == "stretch":
+            op.update(value=draw(st.sampled_from([0.5, 1.5, 2.0])))
+        elif name == "E":
             op.update(which=draw(st.integers(0, 1)), value=draw(st.integers(2, 20)) * 10.0)
         elif name == "v":
             op.update(which=draw(st.integers(0, 1)), value=draw(st.integers(0, 4)) / 10.0)
@@ -648,7 +650,16 @@ def run_beam_history(case, rec):
         elif name == "bc":
             _frame_bc(simu, nodes, op["variant"], Fg, dim)
             st8["bc"] = op["variant"]
-        f, fb, fn = _frame(spec, case["split"], params)
+        elif name == "stretch":
+            # the whole frame scaled about its first end through the coord setter (element lengths change, directions do not);
+            # conditions re-entered in the final configuration
+            c = np.asarray(simu.mesh.coord, float)
+            p1_ = np.array(spec["p1"], float)
+            simu.mesh.coord = p1_ + op["value"] * (c - p1_)
+            st8["scale"] = st8.get("scale", 1.0) * op["value"]
+            _frame_bc(simu, nodes, st8["bc"], Fg, dim)
+        spec_now = dict(spec, d=[float(x) * st8.get("scale", 1.0) for x in spec["d"]])
+        f, fb, fn = _frame(spec_now, case["split"], params)
         f.rho = st8["rho"]
         _frame_bc(f, fn, st8["bc"], Fg, dim)
         if name == "solve":
@@ -663,7 +674,7 @@ def run_beam_history(case, rec):
             a, b = orc.dense(a), orc.dense(b)
             rec.require(a.shape == b.shape, "matrix_shape", f"after {tag}: {nm_} has shape {a.shape}, a fresh simulation {b.shape}", **s2)
             rec.close(a - b, max(np.abs(b).max(), 1e-9), 1e-11, "stale_" + nm_, f"after {tag}: {nm_} differs from a freshly built simulation", **s2)
-        if built and name in ("E", "v", "rho", "yaxis", "bc"):
+        if built and name in ("E", "v", "rho", "yaxis", "bc", "stretch"):
             inval = True
         built = True
         rec.label("op:" + name)
